@@ -788,9 +788,11 @@ def select__element_kind_test(self: XPathFunction, context: ta.ContextType = Non
                 yield item
     else:
         for item in self[0].select(context):
-            if len(self) == 1:
-                yield cast(ElementNode, item)  # Already selected by sequence type test
-            elif isinstance(item, ElementNode):
+            if not isinstance(item, ElementNode):
+                continue  # the name test selects attributes on the attribute axis
+            elif len(self) == 1:
+                yield item  # Already selected by sequence type test
+            else:
                 type_annotation = self[1].name
                 if item.nilled:
                     if self[1].occurrence in ('*', '?'):
@@ -907,7 +909,7 @@ def nud__attribute_kind_test_or_axis(self: XPathToken) -> XPathToken:
         self.label = 'kind test'
         self.parser.advance('(')
         if self.parser.next_token.symbol != ')':
-            self.parser.next_token.expected('(name)', '*', ':')
+            self.parser.next_token.expected('(name)', '*', ':', 'Q{')
             self[:] = self.parser.expression(5),
 
             if self.parser.next_token.symbol == ',':
@@ -939,7 +941,7 @@ def select__attribute_kind_test_or_axis(self: XPathToken, context: ta.ContextTyp
         for attribute in context.iter_attributes():
             yield attribute
     else:
-        name = self[0].value
+        name = self[0].name or self[0].value  # the expanded name for prefixed or braced names
         assert isinstance(name, str)
 
         if self.parser.schema is not None and len(self) == 2:
